@@ -18,8 +18,10 @@ def plan(tier, seed):
                        fast(n=4, m=2, labels='ints', schemes='two', per=60, flags='all_only', configs='fast_det'),
                        fast(n=3, m=2, labels=alt, schemes='two'),
                        dict(n=3, m=2, labels='ints', schemes='two', configs='cbc', per=6),
-                       dict(n=1, m=2, labels='ints', schemes='two', configs='all')],
+                       dict(n=1, m=2, labels='ints', schemes='two', configs='all'),
+                       dict(n=3, m=2, labels='ints', schemes='one', configs='fast_det', premutate=True, reuse=False)],
             'absent_enum': [dict(n=3, m=2, labels='ints', schemes='six', configs='solver'),
+                            dict(n=3, m=2, labels='ints', schemes='one', configs='solver', premutate=True, reuse=False, flags='one'),
                             dict(space='ext43', labels='ints', schemes='ext1', configs='solver', per=300, reuse=False)],
             'stub': [dict(n=3, m=2, labels='ints', schemes='six', configs='solver'),
                      dict(n=3, m=3, labels='ints', schemes='one', configs='solver', per=40),
@@ -189,7 +191,7 @@ def run_shard(sh):
     if sh.get('kind') == 'kernel':
         run_kernel(ctx, sh)
     else:
-        flags = (False,) if sh.get('flags') == 'all_only' else (True, False)
+        flags = (False,) if sh.get('flags') == 'all_only' else (True,) if sh.get('flags') == 'one' else (True, False)
         cross.run_block(ctx, sh, _lib['mode'], _lib[sh['configs']], oracle, flags=flags)
     return ctx.result()
 
